@@ -72,7 +72,16 @@ pub struct Observed {
 pub async fn observe(built: &Built, p: &Probe) -> Observed {
     let client: SocketAddr = p.client.parse().expect("client address");
     let id = uuid::Uuid::parse_str(&p.player_uuid).expect("probe uuid");
-    let targets: Vec<Target> = p.targets.iter().map(to_target).collect();
+    let configured: Vec<Target> = p.targets.iter().map(to_target).collect();
+    // the targets reach the filters the way they do in the router: through the discovery dispatch
+    // built from the configuration (a fixed list here)
+    let targets: Vec<Target> = match passage::adapter::discovery::DynDiscoveryAdapter::from_config(passage::config::DiscoveryAdapter::Fixed(passage::config::FixedDiscovery { targets: configured.clone() })).await {
+        Ok(d) => {
+            use passage_adapters::discovery::DiscoveryAdapter;
+            d.discover().await.unwrap_or(configured)
+        }
+        Err(_) => configured,
+    };
     let server = (p.host.as_str(), p.port);
     let user = (p.player_name.as_str(), &id);
 
